@@ -1,6 +1,7 @@
 import Driver.Common
 import UralModel.Model.Tld
 import UralModel.Model.PslSpec
+import UralModel.Model.TldUrl
 /-!
 Driver handler for C08 (suffix trie, tld helpers, special hosts).
 
@@ -12,6 +13,14 @@ Driver handler for C08 (suffix trie, tld helpers, special hosts).
 * `{"f":"tld", "tlds":[…] | "rules_file":path, "puny":{label:decoded}, "hosts":[…], "labels":[…]}`
   → `{"has":[…], "is":[…]}`; `puny` is table lookup, identity elsewhere.
 * `{"f":"special", "hosts":[…]}` → `[bool,…]`.
+* `{"f":"psl_url", "rules"|"rules_file", "puny":{…}, "urls":[url,…]}` → per URL string, through
+  the model's own `safe_urlsplit` / `urlsplit` / `.hostname` (`Model/TldUrl.lean`):
+  `[hostname|null, split, domain, has_valid, suffix, has_valid_tld]`, or
+  `{"error":"ValueError"}` when the modelled `urlsplit` raises.
+* `{"f":"trie_dump", "rules"|"rules_file", "tops":[label,…]}` → the model's trie read out node
+  by node: without `tops` the root as `[leaf, [exceptions…], [child keys…]]`; with `tops` one
+  entry per label: `null` when the root has no such child, else the whole subtree
+  `[leaf, [exceptions…], [[key, subtree]…]]` (orders as stored; the harness sorts both sides).
 -/
 open Lean Ural Ural.Py
 
@@ -106,6 +115,50 @@ def tld (tlds : List Str) (j : Json) : Json :=
     ("has", jlist ((fieldArr j "hosts").map (fun h => jbool (Tld.hasValidTld puny tlds (hostOf h))))),
     ("is", jlist ((fieldStrs j "labels").map (fun l => jbool (Tld.isValidTld puny tlds (chars l)))))]
 
+/-- the functions of the class and of `tld.py` on a URL *string*: the hostname is the one the
+modelled parser extracts; the walk is memoised per extracted hostname -/
+def pslUrl (t : Tables) (j : Json) : Json :=
+  let table : List (Str × Str) :=
+    match field j "puny" with
+    | .obj kvs => kvs.toList.filterMap (fun (k, v) => match v with
+        | .str s => some (chars k, chars s) | _ => none)
+    | _ => []
+  let puny : Str → Str := fun s => (table.lookup s).getD s
+  let hosts := (fieldStrs j "urls").map (fun u => TldUrl.urlHost (chars u))
+  let oks : List (Option Str) := hosts.filterMap (fun h => match h with | .ok x => some x | .error _ => none)
+  let rows := memoMap oks (fun h =>
+    let w := SuffixTrie.walk t.trie h
+    let sp := match SuffixTrie.splitOf w with
+      | some (d, s) => jlist [.str (unchars d), .str (unchars s)]
+      | none => .null
+    jlist [jstrOpt h, sp, jstrOpt (SuffixTrie.domainOf w), jbool w.isSome, jstrOpt (SuffixTrie.suffixOf w),
+      jbool (Tld.hasValidTld puny t.tlds h)])
+  let step := fun (acc : List Json × List Json) (h : Except TldUrl.Err (Option Str)) =>
+    match h with
+    | .error _ => (acc.1, jerr "ValueError" :: acc.2)
+    | .ok _ => (acc.1.drop 1, (acc.1.headD .null) :: acc.2)
+  jlist (hosts.foldl step (rows, [])).2.reverse
+
+/- a subtree of the model's trie, read out -/
+mutual
+def dumpNode : SNode Str → Json
+  | .mk b ex ks => jlist [jbool b, jlist (ex.map (fun e => jstr (unchars e))), jlist (dumpKids ks)]
+def dumpKids : List (Str × SNode Str) → List Json
+  | [] => []
+  | (k, c) :: rest => jlist [jstr (unchars k), dumpNode c] :: dumpKids rest
+end
+
+def trieDump (t : Tables) (j : Json) : Json :=
+  match field j "tops" with
+  | .null =>
+    jlist [jbool t.trie.leaf, jlist (t.trie.exceptions.map (fun e => jstr (unchars e))),
+      jlist (t.trie.kids.map (fun (k, _) => jstr (unchars k)))]
+  | _ =>
+    jlist ((fieldStrs j "tops").map (fun k =>
+      match child t.trie.kids (chars k) with
+      | some c => dumpNode c
+      | none => .null))
+
 def withTables (j : Json) (k : Tables → Json) : IO Json := do
   match field j "rules_file" with
   | .str path =>
@@ -118,6 +171,9 @@ def handleIO (f : String) (j : Json) : IO (Option Json) := do
   match f with
   | "psl" => return some (← withTables j (fun t => psl t j))
   | "tld" => return some (← withTables j (fun t => tld t.tlds j))
+  | "psl_url" => return some (← withTables j (fun t => pslUrl t j))
+  | "trie_dump" => return some (← withTables j (fun t => trieDump t j))
+  | "tlds_dump" => return some (← withTables j (fun t => jlist (t.tlds.map (fun l => jstr (unchars l)))))
   | "special" => return some (jlist ((fieldStrs j "hosts").map (fun h => jbool (isSpecialHost (chars h)))))
   | _ => return none
 
